@@ -39,6 +39,10 @@ CHECKS = {
             "§6 C10",
             "translator-regenerated model (regex) + kernel-evaluated table theorem + differential correspondence",
             "PARTIAL: vmdk_concat_read_correct / storage_concat_read_correct (read = slice of the concatenation for every request) are covered by the executable models + correspondence, not yet by a theorem. Known findings D20a/D20b (ZERO/RDM/RAW extents unmapped; FLAT start offset ignored) are listed in known_findings.json."),
+    "C07": ("Executable Lean models of every layering mechanism (VHDX partially-present blocks with sector bitmaps and _iter_partial_runs, VMDK delta extents with run_parent, HDS parent chains, QCOW2 backing incl. short backing files and internal snapshots, VDI parents, Parallels snapshot-chain walk) composed into chains by the driver; theorems: hds_overlay (HDS child over any parent, from the C06 proof), snapshot-chain termination/cycle refusal; real code (real temp directories, all parent-location configurations incl. missing) vs model vs construction truth",
+            "§6 C07",
+            "executable Lean models + proved HDS overlay theorem + differential correspondence on chains of depth ≤ 4 (8 thorough)",
+            "PARTIAL: the per-format overlay theorems for VHDX partial blocks, VMDK deltas and QCOW2 backing are not proved yet (the models are executable and tied by correspondence); parent *resolution* over a real filesystem is exercised on the implementation side only — the model receives the resolved chain and checks that an absent required parent is an error."),
 }
 
 NOT_YET = {
